@@ -632,6 +632,68 @@ def flag_matrix_worlds():
     return out
 
 
+def provider_layer_worlds(full=False):
+    """directed family: a provider's output as ONE LAYER of a three-layer merge of the same key `x` (imports e1, e2 and the
+    root's own value; also as a chain root -> e2 -> e1), for every kind of output (closed object record, string with a
+    `string` schema, closed tuple, echo with no schema) against object and scalar layers that overlap it at nested keys; on
+    top of it the references, interpolations and fn::toJSON that read through the layers.  Learnt from seeded changes
+    C02-k (fn::open's output validated before the merge), C06-k (an unknown layer of a known scalar type no longer hides the
+    layer below), C07-l (object over non-object over object), C01-l (a key defined only in the third layer)."""
+    o1 = ("obj", [("foo", ("obj", [("j", ("num", "2"))])), ("host", ("str", "db.internal")),
+                  ("options", ("obj", [("sslmode", ("str", "require"))]))])
+    o2 = ("obj", [("foo", ("obj", [("k", ("num", "1"))])), ("options", ("obj", [("timeout", ("num", "3"))]))])
+    o3 = ("obj", [("deep", ("str", "only-here")), ("foo", ("obj", [("z", ("bool", True))]))])
+    inp = ("obj", [("region", ("str", "x"))])
+    cobj = {"s": False, "u": False, "v": {"o": {"options": xspec({"timeout": ("num", "5")}), "password": xspec("pw", sec=True)}}}
+    cstr = xspec("text")
+    carr = xspec(["p", "q"])
+    provs = {"pobj": {"in": "always", "out": out_schema_of(cobj), "beh": "const", "const": cobj},
+             "pstr": {"in": "always", "out": "string", "beh": "const", "const": cstr},
+             "parr": {"in": "always", "out": out_schema_of(carr), "beh": "const", "const": carr},
+             "pany": {"in": "always", "out": "always", "beh": "echo"},
+             "pfoo": {"in": "always", "out": {"t": "object", "props": {"foo": {"t": "object", "props": {"k": "number"}}}},
+                      "beh": "const", "const": xspec({"foo": {"k": ("num", "7")}})}}
+    kinds = {"O1": o1, "O2": o2, "O3": o3, "S": ("str", "str"), "N": ("null",), "A": ("arr", [("str", "el")]),
+             "PO": ("open", "pobj", inp), "PS": ("open", "pstr", inp), "PA": ("open", "parr", inp), "PE": ("open", "pany", inp),
+             "PF": ("open", "pfoo", inp)}
+    bottoms = ["O1", "O3", "PO"] if not full else ["O1", "O3", "S", "PO", "PS", "PF"]
+    middles = ["O2", "S", "N", "A", "PO", "PS", "PA", "PE", "PF"]
+    tops = ["O2", "PO", "PS", "PF", None] if not full else ["O2", "O3", "PO", "PS", "PE", "PF", None]
+    reads = [("r_host", ("sym", [("name", "x"), ("name", "host")])),
+             ("r_j", ("sym", [("name", "x"), ("name", "foo"), ("name", "j")])),
+             ("r_k", ("sym", [("name", "x"), ("name", "foo"), ("name", "k")])),
+             ("r_deep", ("sym", [("name", "x"), ("name", "deep")])),
+             ("r_to", ("sym", [("name", "x"), ("name", "options"), ("name", "timeout")])),
+             ("r_ssl", norm_interp([("ssl=", [("name", "x"), ("name", "options"), ("name", "sslmode")]), ("", None)])),
+             ("r_foo", ("sym", [("name", "x"), ("name", "foo")])),
+             ("t_x", ("tojson", ("sym", [("name", "x")]))),
+             ("t_foo", ("tojson", ("sym", [("name", "x"), ("name", "foo")])))]
+    out = []
+    for bi, b in enumerate(bottoms):
+        for mi, m in enumerate(middles):
+            for ti, t in enumerate(tops):
+                ks = [b, m] + ([t] if t else [])
+                if not any(k.startswith("P") for k in ks) and not (m in ("S", "N", "A")) and b != "O3":
+                    continue            # all-literal object towers are C01's own families (kept: a key only in the third layer)
+                for chain in ((False, True) if (bi + mi + ti) % 4 == 0 or full else (False,)):
+                    for nreads in ((len(reads), 0) if (bi + mi + ti) % 5 == 0 or full else (len(reads),)):
+                        # one provider NAME per fn::open expression (the C05 oracle identifies an expression by it)
+                        def layer(k, env):
+                            return ("open", kinds[k][1] + "_" + env, inp) if k.startswith("P") else kinds[k]
+                        e1 = {"imports": [], "values": [("x", layer(b, "e1"))]}
+                        e2 = {"imports": [("e1", True)] if chain else [], "values": [("x", layer(m, "e2"))]}
+                        rv = ([("x", layer(t, "root"))] if t else []) + reads[:nreads]
+                        root = {"imports": [("e2", True)] if chain else [("e1", True), ("e2", True)], "values": rv}
+                        c = case_from_graph({"e1": e1, "e2": e2, "root": root}, "root")
+                        c["provs"] = {kinds[k][1] + "_" + env: provs[kinds[k][1]]
+                                      for k, env in zip(ks, ("e1", "e2", "root")) if k.startswith("P")}
+                        c["sites"] = [{"prov": kinds[k][1] + "_" + env, "env": env, "literal_inputs": [("region", ("str", "x"))]}
+                                      for k, env in zip(ks, ("e1", "e2", "root")) if k.startswith("P")]
+                        c["matrix"] = "layers:%s/%s/%s%s%s" % (b, m, t or "-", "/chain" if chain else "", "" if nreads else "/noreads")
+                        out.append(c)
+    return out
+
+
 def lit_xval_wire(e, secret=False):
     """wire xval of a literal expression (secrets flagged)"""
     k = e[0]
